@@ -152,7 +152,7 @@ def classify(meta, r, prop):
     if r["status"] == "tool":
         return "undecided", [], "CBMC did not finish (timeout / resource limit)"
     allow = re.compile(meta["allow"]) if meta["allow"] else None
-    mine, harness_err, unwind = [], [], []
+    mine, harness_err, unwind, foreign = [], [], [], []
     for desc, loc in r["failed"]:
         full = (desc + " " + loc).strip()
         if "unwinding assertion" in desc:
@@ -164,7 +164,9 @@ def classify(meta, r, prop):
                 harness_err.append(full)
             elif t.group(1) == prop:
                 mine.append(full)
-            # tagged for another property: that property's check reports it
+            else:
+                # tagged for another property: that property's check reports it
+                foreign.append(full)
             continue
         if allow and allow.search(full):
             continue
@@ -183,8 +185,14 @@ def classify(meta, r, prop):
         return "undecided", harness_err, "harness sizing error: " + "; ".join(harness_err[:2])
     if mine:
         return "failed", mine, None
+    if foreign and prop in meta["props"]:
+        # A failed assertion panics: on the paths where an assertion of another property
+        # fails, the assertions of this property that come after it were never examined.
+        # That is not a violation of this property, and not a proof of it either.
+        return "undecided", foreign, ("an assertion of another property fails in this lemma and may mask "
+                                     "the assertions of this one (run that property's check): " + "; ".join(foreign[:2]))
     if r["status"] == "ok" or r["status"] == "failed":
-        # failed only on checks tagged for other properties / whitelisted
+        # failed only on whitelisted checks
         if r["status"] == "ok" and r["covers_total"] and r["covers_sat"] < r["covers_total"]:
             return "undecided", [], "cover point unreachable: harness is (partly) vacuous"
         return "discharged", [], None
